@@ -73,36 +73,37 @@ def ipProtoNum (proto : String) : Nat :=
   if proto == "tcp" then 6 else if proto == "udp" then 17 else if proto == "icmp4" then 1
   else if proto == "icmp6" then 58 else 47
 
+/-- VerifyChecksum outcome of the transport layer decoded from `seg` (none: decoding fails) -/
+def l4Result (proto : String) (net : Option Net) (seg : Bytes) : Option (Res VerRes) :=
+  match proto, net with
+  | "tcp", some n => (match tcpDelim seg with | .ok => some (verifyTcp n seg) | _ => none)
+  | "udp", some n => verifyUdp n seg
+  | "icmp4", none => verifyIcmp4 seg
+  | "icmp6", some n => verifyIcmp6 n seg
+  | "gre", none => verifyGre seg
+  | _, _ => none
+
 /-- Packet.VerifyChecksums on [IPv4|IPv6 header built by the serializer][segment] -/
 def pverify (proto : String) (net : Option Net) (src4 dst4 : Bytes) (seg : Bytes) : String :=
   -- the network layer used on the wire: the attached one, or (for icmp4/gre) a fixed IPv4 header
   let wire : Net := match net with
     | some n => n
     | none => .v4 src4 dst4
-  let ipMis : List Mismatch :=
+  let ipLayer : Option (Res VerRes) :=
     match wire with
     | .v4 s d =>
       let hdr := emitIp4 { tos := 0, id := 0, ff := 0, ttl := 64, proto := ipProtoNum proto, src := s, dst := d, opts := [] } seg
-      match verifyIp4 hdr with
-      | some (.ok r) => mismatchOf 0 r
-      | _ => [(0, 0, 0)]
-    | .v6 _ _ => []
+      (match verifyIp4 hdr with
+       | some r => some r
+       | none => some (.err "ip4"))
+    | .v6 _ _ => none     -- IPv6 has no checksum: not a LayerWithChecksum
   match verifyProto proto net seg with
   | none => "bad-op"
   | some "err" => "err"
   | some "unmodelled" => "unmodelled"
   | some _ =>
-    let l4 : Option (Res VerRes) :=
-      match proto, net with
-      | "tcp", some n => some (verifyTcp n seg)
-      | "udp", some n => verifyUdp n seg
-      | "icmp4", none => verifyIcmp4 seg
-      | "icmp6", some n => verifyIcmp6 n seg
-      | "gre", none => verifyGre seg
-      | _, _ => none
-    match l4 with
-    | some (.ok r) =>
-      let ms := ipMis ++ mismatchOf 1 r
+    match packetVerify [ipLayer, l4Result proto net seg] 0 with
+    | .ok ms =>
       joinSp (["ok", toString ms.length] ++ ms.map (fun (i, c, a) => toString i ++ ":" ++ toString c ++ ":" ++ toString a))
     | _ => "err"
 
